@@ -6,8 +6,8 @@ from ..debugging import bacpypes_debugging, ModuleLogger
 from ..capability import Capability
 
 from ..basetypes import ErrorType, PropertyIdentifier
-from ..primitivedata import Atomic, Null, Unsigned
-from ..constructeddata import Any, Array, ArrayOf, List
+from ..primitivedata import Atomic, Null, TagList, Unsigned
+from ..constructeddata import Any, Array, ArrayOf, Choice, List, Sequence
 
 from ..apdu import SimpleAckPDU, ReadPropertyACK, ReadPropertyMultipleACK, \
     ReadAccessResult, ReadAccessResultElement, ReadAccessResultElementChoice
@@ -135,6 +135,16 @@ class ReadWritePropertyServices(Capability):
                 # (DecodingError and EncodingError are ValueErrors)
                 raise InvalidParameterDatatype(str(err))
             if _debug: ReadWritePropertyServices._debug("    - value: %r", value)
+
+            # a constructed value has to encode again: a component may decode
+            # leniently (a number beyond the limits of its class) and the
+            # property could never be read afterwards
+            for item in (value if isinstance(value, list) else [value]):
+                if isinstance(item, (Sequence, Choice)):
+                    try:
+                        item.encode(TagList())
+                    except Exception as err:
+                        raise InvalidParameterDatatype(str(err))
 
             # change the value
             value = obj.WriteProperty(apdu.propertyIdentifier, value, apdu.propertyArrayIndex, apdu.priority)
